@@ -1295,3 +1295,36 @@ def callable_initial_overwrites_column_along_path(case, outcome, atoms):
         return atoms
     return [a for a in atoms if not (a[0] == 'path_rows' and a[2] == 'value_changed' and
                                      str(a[4]).split('.')[-1] in names)]
+
+
+# ---------------------------------------------------------------------------
+# C07
+# ---------------------------------------------------------------------------
+
+@explainer
+def bookkeeping_written_after_commit(case, outcome, atoms):
+    """The evolution SQL is committed by its SQLExecutor before
+    Evolver._save_project_sig() writes the Version/Evolution rows (and before
+    post-migrate handlers write): a failure in those writes leaves the evolved
+    schema in place with nothing recorded, and a retry meets an already evolved
+    database."""
+    return [a for a in atoms if not (len(a) > 1 and a[1] == 'bookkeeping')]
+
+
+@explainer
+def one_run_spans_several_transactions(case, outcome, atoms):
+    """Model creation, each app's evolution batch and deferred SQL run in
+    separate transactions inside one Evolver.evolve(): when a later one fails
+    the earlier ones stay committed although nothing is recorded."""
+    h = case.get('history') or {}
+    apps = set()
+    grown = False
+    for s_ in h.get('steps', []):
+        if s_['type'] == 'evolve':
+            apps.add(s_['app'])
+        else:
+            grown = True
+    if not (grown or len(apps) >= 2):
+        return atoms
+    return [a for a in atoms if a[0] not in ('state_changed_by_failed_run', 'retry_failed',
+                                             'retry_differs_from_uninterrupted')]
